@@ -3,6 +3,7 @@ package main
 import (
 	"fmt"
 	"os"
+	"path/filepath"
 )
 
 type checkFn func(r *Run)
@@ -40,6 +41,9 @@ func main() {
 		if os.Args[i] == "--replay" && i+1 < len(os.Args) {
 			r.replayOnly = os.Args[i+1]
 		}
+	}
+	if r.replayOnly == "" {
+		_ = os.RemoveAll(filepath.Join(verifDir(), "replays", prop))
 	}
 	f(r)
 	r.Finish()
